@@ -374,5 +374,5 @@ func predProf(c profCase, o *evid.Obs) error {
 }
 
 func addProf(r *evid.Run) {
-	evid.Add(r, evid.Prop[profCase]{Name: "prof", Quick: 300, Thorough: 3000, Gen: genProf, Pred: predProf})
+	evid.Add(r, evid.Prop[profCase]{Name: "prof", Quick: 600, Thorough: 3000, Gen: genProf, Pred: predProf})
 }
